@@ -3,7 +3,7 @@
 Require Extraction.
 Require Import ExtrOcamlBasic.
 From Coq Require Import ZArith List.
-From SQ Require Import Pos PosHist RunList Compute Views HistModel PrnModel PrintModel Bufio PrintOps Fmt FormatModel KmpModel KmpSpec KmpProof FindModel Conc ConcExec.
+From SQ Require Import Pos PosHist RunList Compute Views HistModel PrnModel PrintModel Bufio PrintOps Fmt FormatModel KmpModel KmpSpec KmpProof FindModel Conc ConcExec ApiSpec.
 
 Extraction "model.ml"
   Z.add Z.mul Z.sub Z.opp Z.div_eucl Z.compare Z.of_nat Z.to_nat Z.abs Z.eqb Z.ltb Z.leb
@@ -12,7 +12,7 @@ Extraction "model.ml"
   run_history test_number_status hist_base
   fprint_ops run_fprint hangs_pinned span fwd_list eff_hi eff_lo end_of
   format string_of exact_of with_significant hist_base
-  exec_step conc_dlen conc_init
+  exec_step conc_dlen conc_init api_panics
   find_model find_spec text_of step hi lo dlen
   sprint swrite with_start with_end utf8_all positions_of shown_of asc_b
   run_hist segments c11_check c11_check_words between upto end_of.
